@@ -48,6 +48,20 @@ type Layout struct {
 	Pad         bool   `json:"pad_lines,omitempty"`   // spaces around line-oriented records
 	JSON        string `json:"json,omitempty"`        // lines | pretty | array  (jsonline)
 	Inline      bool   `json:"inline_uris,omitempty"` // uri: pass the lines through the `uris` option instead of a file
+	// RawTail (raw only; indexed by item, missing / "" = none): bytes that follow the request text INSIDE the entry's
+	// sized block, i.e. the size line counts them - the terminating line break(s) that phantom-style ammo generators
+	// write after the request and include in the size (docs: "Ammo size is in bytes (integer, including special
+	// characters like CR, LF)"). The request is the header block plus Content-Length body bytes; what follows it in the
+	// block is not part of it. Empty unless GenOpts.RawTail asked for it.
+	RawTail []string `json:"raw_tail,omitempty"`
+}
+
+// RawTailOf is the tail of item i's sized block ("" when it has none).
+func (l Layout) RawTailOf(i int) string {
+	if i < len(l.RawTail) {
+		return l.RawTail[i]
+	}
+	return ""
 }
 
 type File struct {
@@ -228,7 +242,7 @@ func (f File) Render() []byte {
 				b.WriteString(endl)
 			}
 		case f.Format == "raw":
-			req := RawRequest(*it.Entry)
+			req := append(RawRequest(*it.Entry), f.Layout.RawTailOf(i)...)
 			line := fmt.Sprintf("%d", len(req))
 			if it.Entry.Tag != "" {
 				line += " " + it.Entry.Tag
@@ -494,6 +508,10 @@ type GenOpts struct {
 	// (File.ConfHeaders; unique names from the same pool as directives and entry headers, so that the file's
 	// headers often compete with them; Host among them).
 	ConfigHeaders bool
+	// RawTail (raw format): one file in two has entries whose sized block goes on after the request text - two entries
+	// in three of such a file end with CRLF, LF, CRLFCRLF or LFLF counted in the entry size (Layout.RawTail), the
+	// others end exactly with the body / header block. Independent of the other layout knobs (also under NoLayout).
+	RawTail bool
 }
 
 // genHeaderValueFor / genHost under the options
@@ -658,6 +676,19 @@ func Gen(t *rapid.T, format string, o GenOpts) File {
 	if !o.NoLayout {
 		f.Layout = genLayout(t, format, len(f.Items))
 	}
+	if o.RawTail && format == "raw" && rapid.Bool().Draw(t, "rawTails") {
+		tails := make([]string, len(f.Items))
+		hasTail := false
+		for i := range f.Items {
+			if rapid.IntRange(0, 2).Draw(t, "rawTailHere") > 0 {
+				tails[i] = rapid.SampledFrom([]string{"\r\n", "\r\n", "\n", "\r\n\r\n", "\n\n"}).Draw(t, "rawTail")
+				hasTail = true
+			}
+		}
+		if hasTail {
+			f.Layout.RawTail = tails
+		}
+	}
 	if o.ConfigHeaders && rapid.Bool().Draw(t, "confHeaders") {
 		n := rapid.IntRange(1, 3).Draw(t, "confHeadersN")
 		seen := map[string]bool{}
@@ -724,7 +755,7 @@ func genLayout(t *rapid.T, format string, items int) Layout {
 // LayoutKnobOn reports whether any layout variation is active.
 func (l Layout) LayoutKnobOn() bool {
 	return l.LeadBlank > 0 || l.TrailBlank > 0 || l.CRLF || l.NoFinalNL || len(l.BlankBefore) > 0 || l.Pad || l.Inline ||
-		l.JSON == "pretty" || l.JSON == "array"
+		l.JSON == "pretty" || l.JSON == "array" || len(l.RawTail) > 0
 }
 
 // ProviderType is the registered provider name of the format.
